@@ -4,6 +4,7 @@ are looked up lazily so that a missing rule module is an analysis error of that 
 from .rules import countflow as cf
 from .rules import loops as lp
 from .rules import batch as bt
+from .rules import globalstate as gs
 
 NOT_BEHAVIOUR = 'decides the listed structural clauses (necessary conditions); does not decide the behaviour itself'
 
@@ -34,6 +35,17 @@ prop('C01',
       'only hopefuls/pendings are elected or defeated; withdrawn never (R05)'],
      ['"exactly min(seats, electable) winners" as a number'])
 
+prop('C20',
+     [('R47', gs.r47_definite_reset), ('R48', gs.r48_no_global_writer), ('R49', gs.r49_per_election_objects)],
+     'Static analysis of /repo source: every class-level attribute the arithmetic classes read is definitely '
+     'assigned on the CFG of initialize() (or paired-guarded, or a constant); nothing else in the package writes '
+     'process-global state after import (no global statements, no stores into class or module objects, no mutation '
+     'of module- or class-level mutable objects, dynamic features inventoried); all other state is per-election '
+     'objects built by Election.__init__, and the shared profile is never modified by a count. ' + NOT_BEHAVIOUR,
+     ['class-level arithmetic configuration is re-established by initialize on every path (R47)',
+      'no other process-global writer (R48)', 'per-election objects; shared profile never mutated (R49)'],
+     ['byte equality of two records (a statement about two runs)',
+      'callers that reuse one Options object across elections (outside the property\'s protocol)'])
 
 LEVEL_TEXT = ('Static analysis of the source of /repo (never executed): obligations are enumerated from the '
               'repository\'s own entities (rule classes, call sites, stores, loops, class attributes) and each is '
